@@ -253,7 +253,7 @@ Proof. unfold type_ok. intros H. apply andb_prop in H. destruct H as [H _]. now 
 (* what the signature of a variant gives *)
 Lemma parse_single s t : parse_description s = Ok [t] -> s = to_str t /\ type_ok t = true.
 Proof.
-  intros H. apply parse_description_spec in H. destruct H as (_ & Hl & Hw & Hd & Es).
+  intros H. apply parse_description_spec in H. destruct H as (Hl & Hw & Hd & Es).
   unfold to_str_list in Es. cbn [flat_map] in Es. rewrite app_nil_r in Es. subst s.
   cbn [forallb] in Hw, Hd. rewrite andb_true_r in Hw, Hd. split; [reflexivity|].
   unfold type_ok. rewrite Hw, Hd. cbn [andb]. now apply N.leb_le.
